@@ -38,11 +38,6 @@ even number of swaps, float units, never dithered -/
 def IsInput (m : Mode) (x : Cell) : Prop :=
   x.rev = m.swap ∧ x.par = false ∧ x.unit = true ∧ x.dith = 0
 
-/-- the same front end used with another sample encoding -/
-def Mode.withEnc (m : Mode) (e : Enc) : Mode := { m with enc := e }
-
-theorem tag_withEnc (m : Mode) (e : Enc) (fe : Fe Nat) : tag (m.withEnc e) fe = tag m fe := rfl
-
 /-- the states `fe_start` followed by any sequence of `fe_process_int16` / `fe_process_float32`
 calls can reach — the two kinds of call may be **interleaved** (`e` is chosen per call) — each call
 on an arbitrary buffer (any samples, handed over in input order) with an arbitrary output limit -/
@@ -269,6 +264,43 @@ theorem C06_swap_flag_irrelevant (m₁ m₂ : Mode) (size shift : Nat) (hs : 0 <
       funext i; simp [hostC, hd]
     simp only [Function.comp_apply, tagFrame, Frame.map, List.map_map, Option.map_map, hf]
 
+/-- attach an encoding to every chunk of a schedule -/
+def withEncs (encs : Nat → Enc) (chunks : List (List Nat × List Nat)) : List (Enc × List Nat × List Nat) :=
+  (List.range chunks.length).zipWith (fun j ch => (encs j, ch)) chunks
+
+theorem withEncs_snd (encs : Nat → Enc) (chunks : List (List Nat × List Nat)) :
+    (withEncs encs chunks).map (·.2) = chunks := by
+  unfold withEncs
+  generalize hl : List.range chunks.length = l
+  have : l.length = chunks.length := by rw [← hl, List.length_range]
+  clear hl
+  induction chunks generalizing l with
+  | nil => simp
+  | cons ch rest ih =>
+    cases l with
+    | nil => simp at this
+    | cons a l => simp only [List.zipWith_cons_cons, List.map_cons, List.cons.injEq, true_and]
+                  exact ih l (by simpa using this)
+
+/-- **C06 with byte swapping and interleaved encodings.**  Chunk `j` of the schedule is fed through
+`fe_process_int16` or `fe_process_float32` as `encs j` says — any assignment, so the two entry points
+may alternate arbitrarily within the utterance, a carry written by one being completed by the other.
+For every swap / dither setting, schedule and `fe_end` room: no failure, the windows are the
+canonical windows of C06 as host-order int16-unit values, everything is consumed once. -/
+theorem C06_swap_mixed_encodings_canonical (m : Mode) (encs : Nat → Enc) (size shift : Nat) (hs : 0 < shift)
+    (hss : shift ≤ size) (specs : List (Nat × List Nat)) (endRoom : Nat) (he : 0 < endRoom) :
+    ∃ r nend, runX m ⟨size, shift, true⟩ (withEncs encs (chunksFrom 0 specs)) endRoom = some (r, nend) ∧
+      r.fe.out = (canonical size shift (total specs)).map (tagFrame m) ∧ r.left = 0 ∧
+      (r.calls.map (·.consumed)).sum = total specs := by
+  obtain ⟨r, nend, h, hout⟩ := C06_frames_canonical size shift hs hss specs endRoom he
+  obtain ⟨r', nend', h', hleft, hsum, -⟩ := C06_consumed_once size shift hs hss specs endRoom he
+  rw [h] at h'
+  obtain ⟨rfl, rfl⟩ : r = r' ∧ nend = nend' := by
+    have := Option.some.inj h'; exact ⟨congrArg Prod.fst this, congrArg Prod.snd this⟩
+  refine ⟨tagRun m r, nend, by rw [runX_tag, withEncs_snd, h]; rfl, ?_, hleft, hsum⟩
+  show r.fe.out.map (tagFrame m) = _
+  rw [hout]
+
 /-- the value a stored cell denotes for a signal `x` (host-order values) and a byte-reversal `bswap`:
 what the bytes in memory read as on the host -/
 def Cell.val {α : Type} (x : Nat → α) (bswap : α → α) (c : Cell) : α :=
@@ -308,6 +340,131 @@ theorem C06_swap_run_refines (m : Mode) (c : Cfg) (chunks : List (List Nat × Li
 theorem C06_swap_process_refines (m : Mode) (c : Cfg) (fe : Fe Nat) (buf : List Nat) (nframes : Nat) :
     processS m c (tag m fe) (buf.map (inC m)) nframes = (FeBuf.process c fe buf nframes).map (tagProc m) :=
   process_tag m c fe buf nframes
+
+/-! ## the failure outcome is tight: a read succeeds only on a value in the right order and scale -/
+
+/-- a cell is read successfully by reader `e` only if it is in **input** order (reversed iff
+`fe->swap`) and in the scale the reader assumes (int16 units for the int16 reader, float units for
+the float32 reader) -/
+theorem cellToSpch_some_iff_input (m : Mode) (e : Enc) (x : Cell) :
+    (cellToSpch m e x).isSome = true ↔ (x.rev = m.swap ∧ x.unit = decide (e = .float32)) := by
+  obtain ⟨sw, d, e'⟩ := m
+  obtain ⟨i, rev, par, unit, dith⟩ := x
+  cases sw <;> cases d <;> cases e <;> cases rev <;> cases unit <;>
+    simp [cellToSpch, swapIf, arith, scaleUp]
+
+/-- an int16 sample is converted into the overflow buffer successfully only if it is in input order
+and in int16 units -/
+theorem cellToOvf_int16_some_iff_input (m : Mode) (hm : m.enc = .int16) (x : Cell) :
+    (cellToOvf m x).isSome = true ↔ (x.rev = m.swap ∧ x.unit = false) := by
+  obtain ⟨sw, d, e'⟩ := m
+  obtain ⟨i, rev, par, unit, dith⟩ := x
+  simp only at hm
+  subst hm
+  cases sw <;> cases rev <;> cases unit <;> simp [cellToOvf, swapIf, scaleDown]
+
+theorem mapO_some_all (f : Cell → Option Cell) (xs ys : List Cell) (h : mapO f xs = some ys) :
+    ∀ x ∈ xs, (f x).isSome = true := by
+  induction xs generalizing ys with
+  | nil => intro x hx; cases hx
+  | cons a rest ih =>
+    intro x hx
+    simp only [mapO] at h
+    cases ha : f a with
+    | none => rw [ha] at h; cases h
+    | some a' =>
+      rw [ha] at h
+      simp only [Option.bind_some] at h
+      cases hr : mapO f rest with
+      | none => rw [hr] at h; cases h
+      | some r =>
+        rcases List.mem_cons.mp hx with rfl | hx'
+        · rw [ha]; rfl
+        · exact ih r hr x hx'
+
+/-- **C06 byte order: the overflow invariant is necessary, not only sufficient.**  Whatever state the
+front end is in (reachable or not — e.g. after a code change that forgot or misplaced a swap): if
+`fe_end` flushes the rest successfully, then every overflow cell it read was in **input** byte order
+and in float units.  So an execution of the model that leaves a single flushed cell in host order
+(with `fe->swap` set) or in int16 units ends in the failure outcome. -/
+theorem C06_swap_overflow_invariant_necessary (m : Mode) (c : Cfg) (st : Fe Cell) (L : Nat)
+    (hL : 0 < L) (hn : 0 < st.nOvf) (r : Fe Cell × Nat) (h : finishS m c st L = some r) :
+    ∀ x ∈ st.ovf.take (min st.nOvf.toNat c.size), x.rev = m.swap ∧ x.unit = true := by
+  simp only [finishS, hL, hn, and_self, if_true] at h
+  cases hr : rd st.ovf 0 (min st.nOvf.toNat c.size) with
+  | none => rw [hr] at h; cases h
+  | some w =>
+    rw [hr] at h
+    simp only [Option.bind_some, readFrameS] at h
+    cases ht : toSpch m .float32 w with
+    | none => rw [ht] at h; cases h
+    | some ys =>
+      have hw : w = st.ovf.take (min st.nOvf.toNat c.size) := by
+        unfold rd at hr
+        split at hr
+        · simpa using hr.symm
+        · cases hr
+      intro x hx
+      rw [← hw] at hx
+      have := mapO_some_all _ _ _ ht x hx
+      have h2 := (cellToSpch_some_iff_input m .float32 x).mp this
+      simpa using h2
+
+/-- the same for the carry a later call completes: if `read_overflow_frame` succeeds, every cell of
+the carried-over part of the overflow buffer was in input byte order and in float units -/
+theorem C06_swap_carry_invariant_necessary (m : Mode) (c : Cfg) (st : Fe Cell) (buf : List Cell)
+    (r : Fe Cell × Nat) (h : readOverflowFrameS m c st buf = some r) :
+    ∀ x ∈ st.ovf.take st.nOvf.toNat, x.rev = m.swap ∧ x.unit = true := by
+  simp only [readOverflowFrameS] at h
+  split at h
+  · cases h
+  · rename_i hg
+    cases h1 : rd st.ovf 0 st.nOvf.toNat with
+    | none => rw [h1] at h; cases h
+    | some old =>
+      rw [h1] at h
+      simp only [Option.bind_some] at h
+      cases h2 : rd buf 0 ((c.size : Int) - st.nOvf).toNat with
+      | none => rw [h2] at h; cases h
+      | some xs =>
+        rw [h2] at h
+        simp only [Option.bind_some] at h
+        cases h3 : toOvf m xs with
+        | none => rw [h3] at h; cases h
+        | some xs' =>
+          rw [h3] at h
+          simp only [Option.bind_some] at h
+          cases h4 : rd (old ++ xs') 0 c.size with
+          | none => rw [h4] at h; cases h
+          | some w =>
+            rw [h4] at h
+            simp only [Option.bind_some, readFrameS] at h
+            cases ht : toSpch m .float32 w with
+            | none => rw [ht] at h; cases h
+            | some ys =>
+              have hold : old = st.ovf.take st.nOvf.toNat ∧ old.length = st.nOvf.toNat := by
+                unfold rd at h1
+                split at h1
+                · rename_i hle
+                  have : old = st.ovf.take st.nOvf.toNat := by simpa using h1.symm
+                  refine ⟨this, ?_⟩
+                  rw [this, List.length_take]; omega
+                · cases h1
+              have hw : w = (old ++ xs').take c.size := by
+                unfold rd at h4
+                split at h4
+                · simpa using h4.symm
+                · cases h4
+              have hlen : old.length ≤ c.size := by
+                rw [hold.2]; omega
+              intro x hx
+              rw [← hold.1] at hx
+              have hxw : x ∈ w := by
+                rw [hw, List.take_append, List.take_of_length_le hlen]
+                exact List.mem_append_left _ hx
+              have := mapO_some_all _ _ _ ht x hxw
+              have h2 := (cellToSpch_some_iff_input m .float32 x).mp this
+              simpa using h2
 
 /-! ## premises read from the source -/
 
@@ -425,6 +582,16 @@ example : ∃ r, runS ⟨true, true, .int16⟩ ⟨5, 2, true⟩
     (inChunks ⟨true, true, .int16⟩ (chunksFrom 0 [(3, []), (1, [0]), (0, []), (4, [1]), (1, [])])) 1 = some r ∧
     r.1.fe.out.map (Frame.map Cell.src) = canonical 5 2 9 := by
   refine ⟨_, rfl, ?_⟩ <;> decide
+
+/-- interleaved entry points: int16, float32, int16, … on the same schedule; swap and dither on -/
+example : ∃ r, runX ⟨true, true, .int16⟩ ⟨5, 2, true⟩
+    (withEncs (fun j => if j % 2 = 0 then .int16 else .float32)
+      (chunksFrom 0 [(3, []), (1, [0]), (0, []), (4, [1]), (1, [])])) 1 = some r ∧
+    r.1.fe.out.map (Frame.map Cell.src) = canonical 5 2 9 := by
+  refine ⟨_, rfl, ?_⟩ <;> decide
+
+/-- a float32-unit sample handed to the int16 reader (wrong entry point for the data) is a failure -/
+example : cellToSpch ⟨false, false, .float32⟩ .int16 (inC ⟨false, false, .float32⟩ 0) = none := by decide
 
 /-- a sample that reaches the overflow buffer *without* the swap back (host order left in the
 buffer) makes the next read of the overflow frame fail — the seeded "swap dropped" class -/
